@@ -23,6 +23,7 @@ structure St where
   n : Net
   ws : Array WRec                              -- spec: log of successful writes
   last : List ((Nat × Nat) × Addr × (Nat × Nat) × Nat)   -- spec: (origin, dst, reader) ↦ index of the last write matched
+  paths : List (((Nat × Nat) × Addr × (Nat × Nat)) × List TV.Vnet.Ctr) := []   -- hops of the last datagram read per (origin, written destination, reader)
   mreads : List (List UInt8) := []             -- payloads the model handed to readers
   ireads : List (List UInt8) := []             -- payloads the implementation handed to readers
 
@@ -135,6 +136,16 @@ def comp : Component where
         | .pkt c => (if c.src ≠ ({ ip := (match (st.n.hosts[c.origin.1]?) with | some hm => (match hm.socks[c.origin.2]? with | some sk => if sk.ip ≠ 0 then sk.ip else hm.ips.headD 0 | none => 0) | none => 0), port := c.src.port } : Addr) then "read-translated-source " else "") ++
                     (if c.hops.length ≥ 4 then "read-long-path " else "") ++ (if c.dst ≠ c.odst then "read-translated-dest " else "")
         | _ => ""
+      -- the hypothesis of flow_fifo_partial, observed: do two datagrams of one flow read at one socket have the same hops?
+      let (pathTag, paths') : String × List (((Nat × Nat) × Addr × (Nat × Nat)) × List TV.Vnet.Ctr) := match r with
+        | .pkt c =>
+          let key := (c.origin, c.odst, (nat! h, nat! s))
+          let prev := (st1.paths.find? (fun e => e.1 == key)).map (·.2)
+          ((match prev with | some p => if p == c.hops then "flow-same-path " else "flow-path-changed " | none => ""),
+           (key, c.hops) :: st1.paths.filter (fun e => !(e.1 == key)))
+        | _ => ("", st1.paths)
+      let st1 := { st1 with paths := paths' }
+      let hopsTag := hopsTag ++ pathTag
       let st1 := { st1 with mreads := (match r with | .pkt c => c.payload :: st1.mreads | _ => st1.mreads),
                             ireads := (match impl with | ["pkt", _, hx] => unhex hx :: st1.ireads | _ => st1.ireads) }
       ({ st1 with n := n' }, line4 out (stateStr n') spec ("read " ++ (match r with | .pkt _ => "read-pkt " | .empty => "read-empty " | .closed => "read-closed " | .bad => "") ++ hopsTag))
